@@ -8,6 +8,9 @@ use flute::sender::{Config, ObjectDesc, Sender, TOIMaxLength, Toi, TransferConfi
 use harness_core::{guarded, hex, Ctx, Engine, Oracle, Rng};
 use std::collections::{BTreeMap, BTreeSet};
 use std::panic::AssertUnwindSafe;
+use std::sync::atomic::{AtomicU64, Ordering};
+use std::sync::mpsc::{channel, Receiver, RecvTimeoutError, Sender as ChanTx};
+use std::sync::Arc;
 use std::time::{Duration, SystemTime};
 
 // ---- last clause of C15: checked by rustc when this crate compiles, not by a theorem ----------
@@ -72,7 +75,8 @@ fn fdt_tois(xml: &[u8]) -> Option<Vec<u128>> {
     Some(out)
 }
 
-pub struct ToiEngine {
+/// Everything that touches the real `Sender`; lives on its own thread (see `ToiEngine` below).
+pub struct Session {
     sender: Option<Sender>,
     bits: u32,
     tsi: u64,
@@ -87,11 +91,14 @@ pub struct ToiEngine {
     pub peeked: Option<u128>,
     synced: bool,
     dead: bool,
+    /// number of live TOIs, published before every call that may not return
+    live_count: Arc<AtomicU64>,
 }
 
-impl ToiEngine {
-    pub fn new() -> ToiEngine {
-        ToiEngine {
+impl Session {
+    pub fn new(live_count: Arc<AtomicU64>) -> Session {
+        Session {
+            live_count,
             sender: None,
             bits: 16,
             tsi: 0,
@@ -253,15 +260,9 @@ impl ToiEngine {
     }
 }
 
-impl Engine for ToiEngine {
-    fn reset(&mut self) {
-        if self.dead {
-            self.leak();
-        }
-        *self = ToiEngine::new();
-    }
-
+impl Session {
     fn exec(&mut self, op: &str, o: &mut Oracle) -> String {
+        self.live_count.store(self.live().len() as u64, Ordering::SeqCst);
         let t: Vec<&str> = op.split(' ').collect();
         if t.len() < 2 || t[0] != "toi" {
             return "bad-op".to_string();
@@ -285,7 +286,11 @@ impl Engine for ToiEngine {
                         None => return "bad-op".to_string(),
                     }
                 };
-                *self = ToiEngine::new();
+                let lc = self.live_count.clone();
+                if self.dead {
+                    self.leak();
+                }
+                *self = Session::new(lc);
                 self.bits = bits;
                 self.tsi = tsi;
                 self.random = init.is_none();
@@ -372,10 +377,9 @@ impl Engine for ToiEngine {
         }
     }
 
-    fn end_case(&mut self, _o: &mut Oracle) {}
 }
 
-impl ToiEngine {
+impl Session {
     fn exec_session(&mut self, t: &[&str], o: &mut Oracle) -> String {
         let num = |i: usize| -> Option<u64> { t.get(i).and_then(|x| x.parse::<u64>().ok()) };
         match (t[1], t.len()) {
@@ -561,6 +565,50 @@ impl ToiEngine {
                     format!("fdt {}", got.iter().map(|x| x.to_string()).collect::<Vec<_>>().join(" "))
                 }
             }
+            ("allocn", 3) => {
+                // n handles kept under the names 1000000+i
+                let n = match num(2) {
+                    Some(n) => n,
+                    None => return "bad-op".to_string(),
+                };
+                let (mut first, mut last) = (0u128, 0u128);
+                for i in 0..n {
+                    if self.handles.contains_key(&(1_000_000 + i)) {
+                        return "bad-op".to_string();
+                    }
+                    // freshness against the full live set costs O(n^2) here: uniqueness is checked on the
+                    // handle map below instead
+                    let sender = self.sender.as_mut().unwrap();
+                    match guarded(AssertUnwindSafe(|| sender.allocate_toi())) {
+                        Ok(h) => {
+                            let v = h.get();
+                            if v == 0 {
+                                o.fail("toi-zero", "allocated TOI is 0 (reserved for the FDT)");
+                            }
+                            if v >> self.bits != 0 {
+                                o.fail("toi-width", &format!("allocated TOI {} does not fit {} bits", v, self.bits));
+                            }
+                            if i == 0 {
+                                first = v;
+                            }
+                            last = v;
+                            self.handles.insert(1_000_000 + i, h);
+                        }
+                        Err(loc) => {
+                            o.fail("alloc-panic", &format!("allocate_toi panics at {}", loc));
+                            self.dead = true;
+                            self.leak();
+                            return "PANIC".to_string();
+                        }
+                    }
+                    self.live_count.store((self.handles.len() + self.objs.len()) as u64, Ordering::SeqCst);
+                }
+                let distinct: BTreeSet<u128> = self.live();
+                if distinct.len() != self.handles.len() + self.objs.len() {
+                    o.fail("toi-dup-live", "two live handles / objects share a TOI");
+                }
+                format!("ok {} {}", first, last)
+            }
             ("churn", 3) => {
                 // n times: allocate a handle and drop it at once
                 let n = match num(2) {
@@ -582,6 +630,106 @@ impl ToiEngine {
                 format!("ok {}", last)
             }
             _ => "bad-op".to_string(),
+        }
+    }
+}
+
+
+// ------------------------------------------------------------------------------------------------
+// The engine proper: a proxy that runs one `Session` per case on its own thread and waits for every
+// observation with a time-out, so that a call into flute that never returns (D19) becomes the
+// observation `HANG` instead of blocking the harness.  Same-thread calls stay same-thread calls
+// (session thread), `alloct` / `dropt` / `dropmany` use further threads.
+
+type Reply = (String, Vec<(String, String)>);
+
+pub struct ToiEngine {
+    tx: Option<ChanTx<String>>,
+    rx: Option<Receiver<Reply>>,
+    live_count: Arc<AtomicU64>,
+    bits: u32,
+    dead: bool,
+}
+
+impl ToiEngine {
+    pub fn new() -> ToiEngine {
+        ToiEngine { tx: None, rx: None, live_count: Arc::new(AtomicU64::new(0)), bits: 0, dead: false }
+    }
+}
+
+impl Engine for ToiEngine {
+    fn reset(&mut self) {
+        // closing the channel ends the old session thread (unless it hangs inside flute: leaked)
+        self.tx = None;
+        self.rx = None;
+        self.dead = false;
+        self.live_count = Arc::new(AtomicU64::new(0));
+        let (tx, srx) = channel::<String>();
+        let (stx, rx) = channel::<Reply>();
+        let lc = self.live_count.clone();
+        std::thread::spawn(move || {
+            let mut s = Session::new(lc);
+            while let Ok(op) = srx.recv() {
+                let mut o = Oracle::default();
+                let obs = s.exec(&op, &mut o);
+                if stx.send((obs, o.fails)).is_err() {
+                    break;
+                }
+            }
+            if s.dead {
+                s.leak();
+            }
+        });
+        self.tx = Some(tx);
+        self.rx = Some(rx);
+    }
+
+    fn exec(&mut self, op: &str, o: &mut Oracle) -> String {
+        if self.dead {
+            return "DEAD".to_string();
+        }
+        if self.tx.is_none() {
+            self.reset();
+        }
+        let t: Vec<&str> = op.split(' ').collect();
+        if t.len() >= 3 && t[1] == "new" {
+            self.bits = t[2].parse().unwrap_or(0);
+        }
+        let long = t.len() >= 2 && (t[1] == "churn" || t[1] == "allocn");
+        let timeout = Duration::from_secs(if long { 60 } else { 15 });
+        if self.tx.as_ref().unwrap().send(op.to_string()).is_err() {
+            self.dead = true;
+            return "DEAD".to_string();
+        }
+        match self.rx.as_ref().unwrap().recv_timeout(timeout) {
+            Ok((obs, fails)) => {
+                for (c, d) in fails {
+                    o.fail(&c, &d);
+                }
+                obs
+            }
+            Err(RecvTimeoutError::Timeout) => {
+                self.dead = true;
+                let live = self.live_count.load(Ordering::SeqCst);
+                if self.bits == 16 && live == 65534 {
+                    // exactly the excluded case of `allocate_terminates`: this call takes the last free value
+                    o.fail(
+                        "toi16-exhausted-hang",
+                        "ToiMax16 with 65534 live TOIs: the allocate_toi call taking the last free value does not return (skip loop never exits)",
+                    );
+                } else {
+                    o.fail(
+                        "alloc-hang",
+                        &format!("a call into the sender did not return within {:?} ({} live TOIs, {} bit)", timeout, live, self.bits),
+                    );
+                }
+                "HANG".to_string()
+            }
+            Err(RecvTimeoutError::Disconnected) => {
+                self.dead = true;
+                o.fail("session-died", "the session thread died outside a guarded call");
+                "PANIC".to_string()
+            }
         }
     }
 }
@@ -768,6 +916,17 @@ pub fn run(ctx: &mut Ctx, eng: &mut dyn Engine) {
         }
     }
     wire_cases(ctx, eng, &mut rng, if ctx.tier_thorough { 200_000 } else { 20_000 });
+    if ctx.tier_thorough {
+        // D19: ToiMax16, 65534 handles live (every non-zero value but one): the call that takes the last
+        // free value never returns.  Last case of the run: the hanging session thread is abandoned.
+        eng.reset();
+        ctx.case("d19-exhaust16");
+        ctx.count("d19-exhaust16");
+        ctx.step(eng, "toi new 16 1 1");
+        ctx.step(eng, "toi allocn 65534");
+        ctx.step(eng, "toi alloc 5");
+        ctx.end_case(eng);
+    }
     ctx.sample("toi new 16 65534 1 ; toi alloc 1 -> toi 65534 ; toi alloc 2 -> toi 65535 ; toi alloc 3 -> toi 1".to_string());
     ctx.sample("toi add 4 -> toi 2 ; toi start 4 -> wire 2 0 1 0002 ; toi remove 4 -> true ; toi fdt -> fdt - ; toi drain -> done 2".to_string());
 }
